@@ -82,11 +82,19 @@ def _serialize_element(
     if not schema.get("properties", True):
         del schema["properties"]
     if "properties" in schema:
-        schema["required"] = [
-            prop.source or name
+        # JSON Schema is keyed by the JSON (source) names, and an explicit
+        # `required` list is extended by, not replaced with, required flags.
+        schema["properties"] = {
+            prop.source or name: prop
             for name, prop in schema["properties"].items()
-            if prop.required
-        ]
+        }
+        required = list(schema.get("required", []))
+        required.extend(
+            name
+            for name, prop in schema["properties"].items()
+            if prop.required and name not in required
+        )
+        schema["required"] = required
     if not schema.get("required", True):
         del schema["required"]
     if isinstance(element, CompositionElement):
